@@ -107,6 +107,12 @@ def run_c25(out, tier, seed):
     order = ["header", "pre", "ahdr", "lens", "nonce", "npad", "ct", "cpad", "after"]
     same_after = 0
     for r in results:
+        if r.get("baseline_excess"):
+            # the genuine datagram itself: content that the authenticator does not cover is reported as authenticated
+            out.violation("Packet:C25:v%d/%s%s:genuine datagram: more fields reported authenticated than the authenticator covers" % (
+                r["case"]["ver"], r["case"]["dir"], "/trailing" if r["case"]["trailing"] else ""),
+                {"sealed": r["case"], "observed": r["baseline_excess"], "baseline": r["baseline"]})
+            continue
         if r["baseline"] != "ok":
             raise vf.ToolError("sealed datagram %s does not decode with its own key: %s" % (r["case"], r["baseline"]))
         rg = r["regions"]
